@@ -237,7 +237,10 @@ the window again but were outside in between. -/
 example : ¬ AllKept (ghostRun (Ghost.init 500000 (24 * msPerHour) true)
     [.upd ⟨1, false, false⟩ 2, .tick 500003, .putConf msPerHour true, .putConf (24 * msPerHour) true]) := by
   intro h
-  have := h ⟨500000, 1, 2, false⟩ (by decide) (by decide)
+  have hev : (ghostRun (Ghost.init 500000 (24 * msPerHour) true)
+      [.upd ⟨1, false, false⟩ 2, .tick 500003, .putConf msPerHour true, .putConf (24 * msPerHour) true]).evs =
+      [⟨500000, 1, 2, false⟩] := by decide
+  have := h ⟨500000, 1, 2, false⟩ (by rw [hev]; exact List.mem_cons_self ..) (by decide)
   cases this
 
 end AGH.C09
